@@ -379,6 +379,14 @@ OpOf(aop) == SubSeq(aop, 1, Len(aop) - 1)                               \* "+=" 
 PrintLine(vs, st) == IF AnyErr(vs) \/ \E i \in DOMAIN vs : vs[i].t \notin {"i", "b", "s"} THEN [st EXCEPT !.ctl = "err"]
                      ELSE [st EXCEPT !.out = Append(st.out, vs)]
 
+\* clauses in order; the first whose list holds the tag (or, with no tag, a true expression) is taken, else the default clause;
+\* its body runs; a clause ending in fallthrough continues with the body of the next clause
+Same(x, y) == x.t = y.t /\ x.i = y.i /\ x.s = y.s /\ x.t \in {"i", "b", "s"}
+Hits(c, tag, env, fns) == c.a # E0 /\ \E j \in DOMAIN c.a : Same(EvE(c.a[j], env, fns), tag)
+MatchIx(cls, tag, env, fns) ==
+  IF \E i \in DOMAIN cls : Hits(cls[i], tag, env, fns) THEN CHOOSE i \in DOMAIN cls : Hits(cls[i], tag, env, fns) /\ \A j \in 1..(i - 1) : ~Hits(cls[j], tag, env, fns)
+  ELSE IF \E i \in DOMAIN cls : cls[i].a = E0 THEN CHOOSE i \in DOMAIN cls : cls[i].a = E0
+  ELSE 0
 ExS(s, st, fns) ==
   IF st.ctl # "" THEN st ELSE
   CASE s.k = "def"   -> Store(Id(s.s), EvE(s.a[1], st.env, fns), st, fns)
@@ -481,14 +489,7 @@ ExRange(s, l, i, st, fns) ==
            stop == r.ctl = "brk" /\ Mine(r, lab)
            r1 == [AfterPass(r, lab) EXCEPT !.lab = lab]
        IN IF stop \/ r1.ctl # "" THEN r1 ELSE ExRange(s, l, i + 1, r1, fns)
-\* clauses in order; the first whose list holds the tag (or, with no tag, a true expression) is taken, else the default clause;
-\* its body runs; a clause ending in fallthrough continues with the body of the next clause
-Same(x, y) == x.t = y.t /\ x.i = y.i /\ x.s = y.s /\ x.t \in {"i", "b", "s"}
-Hits(c, tag, env, fns) == c.a # E0 /\ \E j \in DOMAIN c.a : Same(EvE(c.a[j], env, fns), tag)
-MatchIx(cls, tag, env, fns) ==
-  IF \E i \in DOMAIN cls : Hits(cls[i], tag, env, fns) THEN CHOOSE i \in DOMAIN cls : Hits(cls[i], tag, env, fns) /\ \A j \in 1..(i - 1) : ~Hits(cls[j], tag, env, fns)
-  ELSE IF \E i \in DOMAIN cls : cls[i].a = E0 THEN CHOOSE i \in DOMAIN cls : cls[i].a = E0
-  ELSE 0
+\* a clause ending in fallthrough continues with the body of the next clause
 ExClauses(cls, i, st, fns) ==
   IF i = 0 \/ i > Len(cls) \/ st.ctl # "" THEN st
   ELSE LET r == ExSs(cls[i].b, st, fns) IN IF cls[i].n = 1 /\ r.ctl = "" THEN ExClauses(cls, i + 1, r, fns) ELSE r
